@@ -261,6 +261,7 @@ type c16Clones struct {
 }
 
 func c16ClonesCheck(c c16Clones) error {
+	resetHistSer()
 	pj, roots, err := buildEdited(historyCase{Doc: c.Doc, ND: c.ND, Copy: c.Copy, Ops: c.Pre})
 	if err != nil {
 		return err
